@@ -25,6 +25,7 @@ package protoio
 //@   safety
 //@   requires writer != nil && writer.w != nil && msg != nil
 //@   requires len(writer.lenBuf) >= 10
+//@   modifies wr(writer.w), writer.buffer, bytes(writer.buffer), bytes(writer.lenBuf)
 //@   ensures [C18.varint.write] err == nil ==> wr(writer.w) ==
 //@      bcat(old(wr(writer.w)), bcat(uvar(blen(pmarshal(msgv(msg)))), pmarshal(msgv(msg))))
 
@@ -33,6 +34,7 @@ package protoio
 //@   safety
 //@   option alloc_limit = reader.maxSize
 //@   requires reader != nil && reader.r != nil && msg != nil
+//@   modifies rd(reader.r), msgv(msg), reader.buf, bytes(reader.buf)
 //@   ensures [C18.varint.read.ok] err == nil ==> uvar_ok(old(rd(reader.r)))
 //@      && uvar_val(old(rd(reader.r))) <= reader.maxSize
 //@      && msgv(msg) == punmarshal(bslice(old(rd(reader.r)), uvar_size(old(rd(reader.r))), uvar_size(old(rd(reader.r))) + uvar_val(old(rd(reader.r)))))
@@ -92,6 +94,7 @@ package protoio
 //@   requires writer != nil && writer.w != nil && msg != nil && writer.byteOrder != nil
 //@   requires len(writer.lenBuf) == 4
 //@   requires blen(pmarshal(msgv(msg))) < 4294967296
+//@   modifies wr(writer.w), writer.buffer, bytes(writer.buffer), bytes(writer.lenBuf)
 //@   ensures [C18.uint32.write] ret0 == nil ==> wr(writer.w) ==
 //@      bcat(old(wr(writer.w)), bcat(u32bytes(writer.byteOrder, blen(pmarshal(msgv(msg)))), pmarshal(msgv(msg))))
 
@@ -100,6 +103,7 @@ package protoio
 //@   safety
 //@   option alloc_limit = reader.maxSize
 //@   requires reader != nil && reader.r != nil && msg != nil && reader.byteOrder != nil
+//@   modifies rd(reader.r), msgv(msg), reader.buf, bytes(reader.buf), bytes(reader.lenBuf)
 //@   requires len(reader.lenBuf) == 4
 //@   ensures [C18.uint32.read.ok] ret0 == nil ==> blen(old(rd(reader.r))) >= 4
 //@      && u32val(reader.byteOrder, bslice(old(rd(reader.r)), 0, 4)) <= reader.maxSize
